@@ -99,8 +99,8 @@ class Prop:
         return fs
 
     def shrink_candidates(self, case):
-        if case.get("kind") == "crashed":
-            return
+        if case.get("kind") == "crashed" or (case.get("gen") or "").startswith("real-bind"):
+            return    # real-bind scenarios are regenerated by the harness (rounds), and which receive batch is mixed is up to the kernel
         if case.get("kind") == "pad":
             lens = case["lens"]
             n = len(lens)
@@ -154,6 +154,11 @@ class Prop:
         if case.get("kind") == "crashed":
             return "device-crashed"
         evs = case["evs"]
+        if (case.get("gen") or "").startswith("real-bind"):
+            p0 = (case.get("_pos") or {}).get(str(f.get("kind")), f.get("pos", 0))
+            if p0 < len(evs) and any(o["kind"] == 4 and o["peer"] and o["ep"] != o["peer"] for o in evs[p0].get("obs") or []):
+                return "transport-sent-to-another-peers-endpoint:real-bind-mixed-receive-batch"
+
         pos = (case.get("_pos") or {}).get(str(f.get("kind")), f.get("pos", 0))
         k = evs[pos]["k"] if pos < len(evs) else "?"
         if pos < len(evs):
